@@ -226,6 +226,33 @@ def a05_action_algebra(ctx):
         r.inst('sign|Neg|' + va)
         if got != want:
             r.violate('sign|Neg|%s|%s' % (va, '+'.join(sorted(got))), '-%s gives %s (expected %s)' % (va, sorted(got), sorted(want)), f.bodies[neg_id]['file'], f.bodies[neg_id]['line'])
+    # conversions back: None-ness and sign follow the variant
+    back = {}
+    for d, bid in fns:
+        if d.endswith('>::from') and 'From<core::action::Action>' in d:
+            back[d] = bid
+    for d, bid in sorted(back.items()):
+        target = d.split(' for ')[-1].split('>::from')[0]
+        for va in ('Buy', 'None', 'Sell'):
+            ex, outs = run(bid, lambda ex, st, b: [pin_action(ex, st, va)])
+            key = 'sign|Into<%s>|%s' % (target, va)
+            r.inst(key)
+            for s, v in outs or []:
+                if v[0] == 'adt' and v[1] == 'std::option::Option' and v[2] is not None:
+                    want = {'None'} if va == 'None' else {'Some'}
+                    if not set(v[2]) <= want:
+                        r.violate(key + '|' + '+'.join(sorted(set(v[2]) - want)), 'converting Action::%s into %s can give %s (a signal of strength 0 is still a signal; only '
+                                  'Action::None has no ratio/sign)' % (va, target, sorted(set(v[2]) - want)), f.bodies[bid]['file'], f.bodies[bid]['line'])
+                    elif 'Some' in v[2]:
+                        pay = s.cells[v[3]['Some']['0']]
+                        if pay[0] == 'int':
+                            lo, hi = ex.rng(s, pay[2])
+                            if (va == 'Buy' and lo < 0) or (va == 'Sell' and hi > 0):
+                                r.violate(key + '|sign', 'the sign of Action::%s converted into %s can be %s' % (va, target, (lo, hi)), f.bodies[bid]['file'], f.bodies[bid]['line'])
+                elif v[0] == 'int':
+                    lo, hi = ex.rng(s, v[2])
+                    if (va == 'Buy' and lo < 0) or (va == 'Sell' and hi > 0) or (va == 'None' and (lo, hi) != (0, 0)):
+                        r.violate(key + '|sign', 'Action::%s converts into %s in [%d, %d]' % (va, target, lo, hi), f.bodies[bid]['file'], f.bodies[bid]['line'])
     # From<f64> / From<f32> / From<i8>
     FM = 1.7976931348623157e308
     for ty, pins in (('f64', (('positive', (5e-324, INF, False), {'Buy'}), ('negative', (-INF, -5e-324, False), {'Sell'}), ('NaN', None, {'None'}))),
